@@ -150,8 +150,8 @@ def alignStep (o : CommonOpts) (P : Params) (ref est : List (Pose Rat)) : Except
   match alignKind o.align o.correctScale with
   | none => .ok est
   | some k =>
-      let (x, y) := Align.alignInputs o.nToAlign est ref
-      if Ume.umeRefuses x y then .error .geometry
+      if Ume.umeRefuses (Align.alignInputs o.nToAlign est ref).1 (Align.alignInputs o.nToAlign est ref).2
+      then .error .geometry
       else .ok (Align.alignApply (alignMode k) P.umeR P.umeT P.umeS est)
 
 def originStep (o : CommonOpts) (ref est : List (Pose Rat)) : Except RunErr (List (Pose Rat)) :=
